@@ -154,9 +154,6 @@ impl Column {
 
         let key = self.base_block_key.clone().block(block_id);
 
-        let mut block_header = BlockMeta::default();
-        let mut do_verify_checksum = false;
-
         // support multiple I/O backend
         let block =
             self.block_cache
@@ -184,15 +181,27 @@ impl Column {
                         Ok::<_, TracedStorageError>(data)
                     })
                     .await
-                    .unwrap();
+                    .unwrap()?;
                     // TODO(chi): we should invalidate cache item after a RowSet has been compacted.
                     // self.block_cache.insert(key, block.clone()).await;
 
-                    // need to verify checksum when read from disk
-                    do_verify_checksum = true;
-                    block
+                    // need to verify checksum when read from disk. This must happen before the
+                    // block enters the cache, otherwise a corrupted block would be served from
+                    // the cache, unverified, on every later read.
+                    Self::decode_block_meta(&block, true)?;
+                    Ok::<_, TracedStorageError>(block)
                 })
                 .await?;
+
+        let block_header = Self::decode_block_meta(&block, false)?;
+
+        Ok((block_header, block.slice(..block.len() - BLOCK_META_SIZE)))
+    }
+
+    /// Decode the meta at the end of `block` and, if `do_verify_checksum` is set, verify the
+    /// checksum of the block against it.
+    fn decode_block_meta(block: &[u8], do_verify_checksum: bool) -> StorageResult<BlockMeta> {
+        let mut block_header = BlockMeta::default();
 
         if block.len() < BLOCK_META_SIZE {
             return Err(TracedStorageError::decode(
@@ -210,6 +219,6 @@ impl Column {
             )?;
         }
 
-        Ok((block_header, block.slice(..block.len() - BLOCK_META_SIZE)))
+        Ok(block_header)
     }
 }
